@@ -28,7 +28,15 @@ pub enum Op {
     Neq,
 }
 
-pub fn term_alphabet(quick: bool) -> Vec<T> {
+pub fn term_alphabet_wide() -> Vec<T> {
+    term_alphabet_inner(false)
+}
+
+pub fn term_alphabet(_quick: bool) -> Vec<T> {
+    term_alphabet_inner(true)
+}
+
+fn term_alphabet_inner(quick: bool) -> Vec<T> {
     let x = T::V(0);
     let y = T::V(1);
     let z = T::V(2);
@@ -104,10 +112,10 @@ fn apply(st: State<DU, DE>, terms: &[LTerm<DU, DE>], n: usize, a: usize) -> Resu
     guarded(|| if op == 0 { st.unify(&terms[i], &terms[j]) } else { st.disunify(&terms[i], &terms[j]) })
 }
 
-fn expand(den: &Den, u: &[T], hist: &[usize], index: usize) -> Local {
+fn expand(den: &Den, u: &[T], hist: &[usize], index: usize, wide: bool) -> Local {
     let mut l = Local::default();
     let n = u.len();
-    let data = json!({"history": hist});
+    let data = json!({"history": hist, "wide": wide});
     crate::ev::progress("c02-e1", index, &data);
     let mk = |kind: &str, sig: String, detail: String, site: String| Violation {
         kind: kind.into(),
@@ -432,7 +440,9 @@ pub fn run(ctx: &mut Ctx) {
     if let Some(r) = ctx.replay.clone() {
         let hist: Vec<usize> = r.data["history"].as_array().map(|a| a.iter().filter_map(|x| x.as_u64().map(|n| n as usize)).collect()).unwrap_or_default();
         if r.family == "c02-e1" {
-            let l = crate::pool::on_big_stack(|| expand(&den, &u, &hist, r.index));
+            let wide = r.data["wide"].as_bool().unwrap_or(false);
+            let ua = if wide { term_alphabet_wide() } else { u.clone() };
+            let l = crate::pool::on_big_stack(|| expand(&den, &ua, &hist, r.index, wide));
             for v in l.viols {
                 ctx.violation(v);
             }
@@ -455,33 +465,49 @@ pub fn run(ctx: &mut Ctx) {
     }
     let t0 = std::time::Instant::now();
     let mut seen: HashMap<SKey, ()> = HashMap::new();
-    seen.insert((vec![None; NV], vec![]), ());
-    let mut frontier: Vec<Vec<usize>> = vec![vec![]];
-    histories.push(vec![]);
-    for level in 0..depth {
-        let base = histories.len();
-        let results: Vec<Local> = par_map(&frontier, |i, h| expand(&den, &u, h, base + i));
-        let mut next = vec![];
-        for (h, l) in frontier.iter().zip(results.into_iter()) {
-            transitions += l.transitions;
-            for (k, c) in l.hist {
-                ctx.hist(&k, c);
-            }
-            for v in l.viols {
-                ctx.violation(v);
-            }
-            for (a, key) in l.succ {
-                if !seen.contains_key(&key) {
-                    seen.insert(key, ());
-                    let mut nh = h.clone();
-                    nh.push(a);
-                    next.push(nh);
+    let run_e1 = |ctx: &mut Ctx, u: &Vec<T>, depth: usize, histories: &mut Vec<Vec<usize>>, levels: &mut Vec<(usize, usize)>, transitions: &mut u64| {
+        let mut seen_local: HashMap<SKey, ()> = HashMap::new();
+        seen_local.insert((vec![None; NV], vec![]), ());
+        let mut frontier: Vec<Vec<usize>> = vec![vec![]];
+        histories.push(vec![]);
+        for level in 0..depth {
+            let base = histories.len();
+            let wide = u.len() != n;
+            let results: Vec<Local> = par_map(&frontier, |i, h| expand(&den, u, h, base + i, wide));
+            let mut next = vec![];
+            for (h, l) in frontier.iter().zip(results.into_iter()) {
+                *transitions += l.transitions;
+                for (k, c) in l.hist {
+                    ctx.hist(&k, c);
+                }
+                for v in l.viols {
+                    ctx.violation(v);
+                }
+                for (a, key) in l.succ {
+                    if !seen_local.contains_key(&key) {
+                        seen_local.insert(key, ());
+                        let mut nh = h.clone();
+                        nh.push(a);
+                        next.push(nh);
+                    }
                 }
             }
+            levels.push((level + 1, next.len()));
+            histories.extend(next.iter().cloned());
+            frontier = next;
         }
-        levels.push((level + 1, next.len()));
-        histories.extend(next.iter().cloned());
-        frontier = next;
+        seen_local
+    };
+    seen.extend(run_e1(ctx, &u, depth, &mut histories, &mut levels, &mut transitions));
+    let mut wide_states = 0usize;
+    if !quick {
+        // second exploration: the wide alphabet (improper lists, [], z inside lists) to depth 2
+        let wide = term_alphabet_wide();
+        let mut h2 = vec![];
+        let mut l2 = vec![];
+        let s2 = run_e1(ctx, &wide, 2, &mut h2, &mut l2, &mut transitions);
+        wide_states = s2.len();
+        ctx.set("wide_alphabet", json!({"terms": wide.len(), "depth": 2, "states": s2.len(), "states_per_level": l2}));
     }
     let t_e1 = t0.elapsed().as_secs_f64();
     // ---- E2 on every distinct state's history (query level)
@@ -522,7 +548,7 @@ pub fn run(ctx: &mut Ctx) {
         }
     }
     ctx.set("phase_seconds", json!({"e1": t_e1, "e2": t_e2, "e3": t0.elapsed().as_secs_f64() - t_e1 - t_e2}));
-    let states = seen.len() as u64;
+    let states = (seen.len() + wide_states) as u64;
     ctx.set("states", json!(states));
     ctx.set("transitions", json!(transitions));
     ctx.set("states_per_level", json!(levels));
